@@ -23,6 +23,8 @@ enum Kind {
     Index,
     /// a value of unknown shape (slot values, object iteration items)
     Any,
+    /// an item that is itself a list of scalars (item of `ll`)
+    ScalarList,
 }
 
 #[derive(Clone, Debug)]
@@ -129,6 +131,10 @@ impl<'a> Ctx<'a> {
                 Kind::Any => {
                     pool.push(id(&sv.name));
                     pool.push(member(id(&sv.name), "v"));
+                }
+                Kind::ScalarList => {
+                    pool.push(member(id(&sv.name), "length"));
+                    pool.push(index(id(&sv.name), Expr::Num("0".into())));
                 }
             }
         }
@@ -339,6 +345,9 @@ impl<'a> Ctx<'a> {
                         assignable.push(id(&sv.name));
                     }
                 }
+                Kind::ScalarList => {
+                    assignable.push(index(id(&sv.name), Expr::Num("0".into())));
+                }
                 Kind::Any => {
                     // item of an object iterated by key: the path ends in the field name
                     for _ in 0..2 {
@@ -412,7 +421,7 @@ impl<'a> Ctx<'a> {
             if self.r.chance(0.35) {
                 if self.prop == Prop::C14 && self.r.chance(0.3) {
                     // entity spellings and brace look-alikes (source text, decoded by the parser)
-                    parts.push(TextPart::Lit((*self.r.pick(&["&lt;", "&amp;", "a &gt; b", "&#123;&#123; x }}", "&#x7b;", " { ", "} ", "&quot;q&quot;", "&nbsp;", "&#39;", "x&amp;amp;y", "\n  ", "\t"])).to_string()));
+                    parts.push(TextPart::Lit((*self.r.pick(&["&lt;", "&amp;", "a &gt; b", "&#123;&#123; x }}", "&#x7b;", " { ", "} ", "&#123;&#123;&#123;", "&#123;&#123;", "x&#123;&#123;&#123;&#123;", "{ { ", "&#123;", "&quot;q&quot;", "&nbsp;", "&#39;", "x&amp;amp;y", "\n  ", "\t"])).to_string()));
                 } else {
                     parts.push(TextPart::Lit(format!("t{}", self.r.below(20))));
                 }
@@ -464,7 +473,12 @@ impl<'a> Ctx<'a> {
                                     _ => member(id(&m2), "f"),
                                 };
                                 let c = if self.r.chance(0.6) { id("flag") } else { self.scalar_leaf() };
-                                AttrVal::Bind(Expr::Cond(Box::new(c), Box::new(one), Box::new(other)))
+                                if self.r.chance(0.25) {
+                                    // the module is selected by data, the member is fixed
+                                    AttrVal::Bind(member(Expr::Cond(Box::new(c), Box::new(id(&m)), Box::new(id(&m2))), "f"))
+                                } else {
+                                    AttrVal::Bind(Expr::Cond(Box::new(c), Box::new(one), Box::new(other)))
+                                }
                             } else {
                                 AttrVal::Bind(one)
                             }
@@ -531,6 +545,11 @@ impl<'a> Ctx<'a> {
             }
             if self.f.index_reads {
                 pool.push((member(index(id("list"), id("n")), "sub"), Kind::SubRecord, true, Some("k")));
+                // a member of a conditional: the path is the taken branch's path plus the member
+                pool.push((member(Expr::Cond(Box::new(id("flag")), Box::new(index(id("list"), Expr::Num("0".into()))), Box::new(index(id("list"), id("n")))), "sub"), Kind::SubRecord, true, Some("k")));
+            }
+            if self.f.nested_for {
+                pool.push((id("ll"), Kind::ScalarList, true, None));
             }
             if self.f.script_lists && !self.modules.is_empty() {
                 // a list that lives in a script module: items have a script path, never a data path
@@ -541,6 +560,15 @@ impl<'a> Ctx<'a> {
         }
         if self.f.nested_for {
             for sv in &self.scope {
+                if sv.kind == Kind::ScalarList {
+                    // the inner list is the bare outer item
+                    for _ in 0..4 {
+                        pool.push((id(&sv.name), Kind::Scalar, sv.assignable, Some("*this")));
+                    }
+                    if !self.in_template {
+                        pool.push((Expr::Cond(Box::new(id("flag")), Box::new(id(&sv.name)), Box::new(id("l2"))), Kind::Scalar, sv.assignable, None));
+                    }
+                }
                 if sv.kind == Kind::Record {
                     for _ in 0..5 {
                         pool.push((member(id(&sv.name), "sub"), Kind::SubRecord, sv.assignable, Some("k")));
@@ -551,7 +579,7 @@ impl<'a> Ctx<'a> {
         let i = self.r.below(pool.len());
         let x = pool.swap_remove(i);
         if let Expr::Member(b, _) = &x.0 {
-            if let Expr::Index(..) = **b {
+            if matches!(**b, Expr::Index(..) | Expr::Cond(..)) {
                 self.used_index_reads = true;
             }
         }
@@ -867,12 +895,22 @@ impl<'a> Ctx<'a> {
                 let inner = vec![Node::Text(self.text_parts())];
                 self.scope.pop();
                 self.scope.pop();
-                let content = Node::El {
-                    tag: "view".into(),
-                    attrs: vec![Attr { name: "slot:sv".into(), val: AttrVal::None }, Attr { name: "slot:si".into(), val: AttrVal::None }],
-                    children: inner,
+                let content = if self.r.chance(0.3) {
+                    // content that reads host data only: still one copy per slot instance
+                    Node::El { tag: "view".into(), attrs: vec![], children: vec![Node::Text(self.text_parts())] }
+                } else {
+                    Node::El {
+                        tag: "view".into(),
+                        attrs: vec![Attr { name: "slot:sv".into(), val: AttrVal::None }, Attr { name: "slot:si".into(), val: AttrVal::None }],
+                        children: inner,
+                    }
                 };
-                Node::El { tag: kind.into(), attrs, children: vec![content] }
+                let mut children = vec![content];
+                if self.r.chance(0.25) {
+                    // a text node directly in the slot content (one copy per slot instance, too)
+                    children.insert(0, Node::Text(self.text_parts()));
+                }
+                Node::El { tag: kind.into(), attrs, children }
             }
         }
     }
@@ -942,6 +980,7 @@ fn gen_data(r: &mut Rng, vg: &mut ValGen) -> Value {
         "n": r.below(4), "s": vg.name(r), "flag": r.chance(0.5),
         "obj": vg.obj(r), "o2": {"p": vg.scalar(r), "q": vg.scalar(r)},
         "list": vg.records(r, 4), "l2": vg.scalars(r, 4),
+        "ll": (0..r.below(4)).map(|_| vg.scalars(r, 3)).collect::<Vec<_>>(),
     })
 }
 
@@ -966,11 +1005,21 @@ fn gen_op(r: &mut Rng, vg: &mut ValGen, f: &Features, safe_splice: bool, prop: P
         2 => json!(["set", ["obj", "y", "z"], vg.scalar(r)]),
         3 => json!(["set", ["list", seg_i(r), *r.pick(&["v", "w"])], vg.scalar(r)]),
         4 => json!(["set", ["list", seg_i(r), "sub", seg_i(r), "v"], vg.scalar(r)]),
+        5 if r.chance(0.3) => json!(["set", ["ll", seg_i(r), seg_i(r)], vg.uniq_str()]),
         5 => json!(["set", ["l2", seg_i(r)], if r.chance(0.5) { vg.uniq_num() } else { vg.uniq_str() }]),
         6 => {
             let n = r.below(3);
             let ins: Vec<Value> = (0..n).map(|_| vg.record(r)).collect();
             json!([splice, ["list"], r.below(6), r.below(3), ins])
+        }
+        7 if r.chance(0.3) => {
+            if r.chance(0.5) {
+                let ins: Vec<Value> = (0..r.below(2) + 1).map(|_| vg.scalars(r, 2)).collect();
+                json!([splice, ["ll"], r.below(4), r.below(2), ins])
+            } else {
+                let ins: Vec<Value> = (0..r.below(3)).map(|_| vg.uniq_str()).collect();
+                json!([splice, ["ll", seg_i(r)], r.below(4), r.below(2), ins])
+            }
         }
         7 => {
             let n = r.below(3);
@@ -1285,7 +1334,13 @@ pub fn generate_with(seed: u64, prop: Prop, deep: bool) -> World {
                 if chars.is_empty() {
                     break;
                 }
-                let at = rm.below(chars.len());
+                // mostly outside the body of the inline script (a broken script only makes the
+                // world unexecutable)
+                let script_end = {
+                    let hay: String = chars.iter().collect();
+                    hay.find("</wxs>").map(|b| hay[..b].chars().count()).unwrap_or(0)
+                };
+                let at = if script_end > 0 && script_end < chars.len() && rm.chance(0.9) { script_end + rm.below(chars.len() - script_end) } else { rm.below(chars.len()) };
                 match rm.below(6) {
                     0 => {
                         chars.remove(at);
